@@ -185,7 +185,11 @@ where
                 return None;
             }
             State::Parsing => {
-                self.increment_record();
+                // (not if the search for the current record was
+                // interrupted by an error)
+                if self.incomplete_pos.is_none() {
+                    self.increment_record();
+                }
             }
         };
 
@@ -256,7 +260,10 @@ where
             State::Parsing => {
                 // next() was previously called, the current record has
                 // already been returned -> start parsing the next one
-                self.increment_record();
+                // (not if the search was interrupted by an error)
+                if self.incomplete_pos.is_none() {
+                    self.increment_record();
+                }
                 self.state = State::Positioned;
             }
             State::Positioned => {
